@@ -459,6 +459,10 @@ def check_run(ck, case, cfg, scratch, use_model=True):
             match_err = None
         except NoFilesError:
             real_matches, match_err = [], "no-files"
+        except Exception as e:
+            ck.case(kind="match-raised")
+            ck.violation("match-raised", f"FileSet.match(start={start}, end={end}, max_interval={mi}) raised {type(e).__name__}: {str(e)[:120]}", full)
+            return True
         # ---- oracle
         excl = cfg["broken"] if (cfg["broken"] is not None) else None
         want_all = oracle_total(case)
